@@ -202,6 +202,12 @@ def _name_with_model(tree) -> bool:
         if names.index(m) != 2 or names.index(p) != 4 or names.count(m) != 1 or names.count(p) != 1:
             fail(stmt, "the name must be <3rd component>.<5th component>")
 
+    # `if len(parts) == 5: <A> else: return name` + rest  ==  `if len(parts) != 5: return name` + <A> + rest
+    if len(b) >= 2 and isinstance(b[1], ast.If) and isinstance(b[1].test, ast.Compare) and len(b[1].test.ops) == 1 \
+            and isinstance(b[1].test.ops[0], ast.Eq) and len(b[1].orelse) == 1 and isinstance(b[1].orelse[0], ast.Return):
+        t = b[1]
+        guard = ast.If(ast.Compare(t.test.left, [ast.NotEq()], t.test.comparators), t.orelse, [])
+        b = [b[0], ast.copy_location(guard, t)] + list(t.body) + b[2:]
     if len(b) == 2:
         names = unpack(b[0], "name.split('.')")
         result(b[1], names)
